@@ -159,7 +159,7 @@ def oracle(script: dict, run: Any) -> List[Violation]:
                 out.append(v)
                 break
         return out
-    for now_us, task, res in run.delay_log:
+    for now_us, task, res, _sq in run.delay_log:
         if task.time is None or task.cron is not None:
             continue
         r2 = res if res is None or isinstance(res, tuple) else [type(res).__name__, res]
@@ -195,14 +195,14 @@ def probes(script: dict, run: Any) -> Dict[str, int]:
             if c.get("dst"):
                 res["dst_fold_window"] = 1
     else:
-        res["insitu_calls"] = int(any(t.time is not None for _, t, _ in run.delay_log))
+        res["insitu_calls"] = int(any(t.time is not None for _, t, _, _ in run.delay_log))
     return res
 
 
 def nontrivial(script: dict, run: Any) -> bool:
     if script["mode"] == "sweep":
         return any(0 < c["t"]["us"] - c["now_us"] <= 61_000_000 for c in script["cases"])
-    return any(t.time is not None and isinstance(r, int) and r > 0 for _, t, r in run.delay_log)
+    return any(t.time is not None and isinstance(r, int) and r > 0 for _, t, r, _ in run.delay_log)
 
 
 def signature(run: Any) -> int:
